@@ -8,6 +8,8 @@ package main
 //
 //   N1  `if init; cond { … }`        →  `init` ; `if cond { … }`
 //       (also `else if init; cond`   →  `else { init; if cond … }`)
+//   N3  `x, ok := strings.CutPrefix(x, C)` ; `if !ok { T }`
+//         →  `if !strings.HasPrefix(x, C) { T }` ; `x = x[len(C):]`
 //
 // A second equivalence is offered as a VIEW to the consumers that need it
 // (normGuards, used by the JSON reader model):
@@ -23,8 +25,10 @@ package main
 
 import (
 	"go/ast"
+	"go/constant"
 	"go/token"
 	"go/types"
+	"strconv"
 )
 
 func normalizePackage(info *types.Info, files []*ast.File) {
@@ -49,7 +53,81 @@ func normList(info *types.Info, list []ast.Stmt) []ast.Stmt {
 	for _, st := range list {
 		out = append(out, normStmt(info, st)...)
 	}
-	return out
+	return normCutPrefix(info, out)
+}
+
+// normCutPrefix (N3): `x, ok := strings.CutPrefix(x, C)` ; `if !ok { T }`  →
+// `if !strings.HasPrefix(x, C) { T }` ; `x = x[len(C):]`   (C constant, ok not used elsewhere).
+// The synthesised nodes get their go/types entries so that the recognisers can read them.
+func normCutPrefix(info *types.Info, list []ast.Stmt) []ast.Stmt {
+	for i := 0; i+1 < len(list); i++ {
+		as, ok := list[i].(*ast.AssignStmt)
+		if !ok || len(as.Lhs) != 2 || len(as.Rhs) != 1 {
+			continue
+		}
+		call, ok := as.Rhs[0].(*ast.CallExpr)
+		if !ok || len(call.Args) != 2 || calleeName(info, call) != "strings.CutPrefix" {
+			continue
+		}
+		x := identObj(info, as.Lhs[0])
+		okObj := identObj(info, as.Lhs[1])
+		tv := info.Types[call.Args[1]]
+		if x == nil || okObj == nil || identObj(info, call.Args[0]) != x || tv.Value == nil || tv.Value.Kind() != constant.String {
+			continue
+		}
+		ifs, isIf := list[i+1].(*ast.IfStmt)
+		if !isIf || ifs.Init != nil || ifs.Else != nil {
+			continue
+		}
+		ue, isNot := ast.Unparen(ifs.Cond).(*ast.UnaryExpr)
+		if !isNot || ue.Op != token.NOT || identObj(info, ue.X) != okObj {
+			continue
+		}
+		// ok must not be used anywhere else in the list
+		uses := 0
+		for _, st := range list {
+			ast.Inspect(st, func(n ast.Node) bool {
+				if id, isId := n.(*ast.Ident); isId && info.Uses[id] == okObj {
+					uses++
+				}
+				return true
+			})
+		}
+		if uses != 1 {
+			continue
+		}
+		sel, isSel := call.Fun.(*ast.SelectorExpr)
+		if !isSel {
+			continue
+		}
+		pkgName, _ := info.Uses[identOf(sel.X)].(*types.PkgName)
+		if pkgName == nil {
+			continue
+		}
+		hasPrefix, _ := pkgName.Imported().Scope().Lookup("HasPrefix").(*types.Func)
+		if hasPrefix == nil {
+			continue
+		}
+		hpIdent := &ast.Ident{NamePos: sel.Sel.NamePos, Name: "HasPrefix"}
+		info.Uses[hpIdent] = hasPrefix
+		hpSel := &ast.SelectorExpr{X: sel.X, Sel: hpIdent}
+		info.Types[hpSel] = types.TypeAndValue{Type: hasPrefix.Type()}
+		hpCall := &ast.CallExpr{Fun: hpSel, Lparen: call.Lparen, Args: []ast.Expr{call.Args[0], call.Args[1]}, Rparen: call.Rparen}
+		info.Types[hpCall] = types.TypeAndValue{Type: types.Typ[types.Bool]}
+		ifs.Cond = &ast.UnaryExpr{OpPos: ue.OpPos, Op: token.NOT, X: hpCall}
+		info.Types[ifs.Cond] = types.TypeAndValue{Type: types.Typ[types.Bool]}
+		n := len(constant.StringVal(tv.Value))
+		lit := &ast.BasicLit{ValuePos: call.Args[1].Pos(), Kind: token.INT, Value: strconv.Itoa(n)}
+		info.Types[lit] = types.TypeAndValue{Type: types.Typ[types.Int], Value: constant.MakeInt64(int64(n))}
+		lhs, _ := as.Lhs[0].(*ast.Ident)
+		xUse := &ast.Ident{NamePos: lhs.NamePos, Name: lhs.Name}
+		info.Uses[xUse] = x
+		sl := &ast.SliceExpr{X: call.Args[0], Lbrack: call.Lparen, Low: lit, Rbrack: call.Rparen}
+		info.Types[sl] = types.TypeAndValue{Type: x.Type()}
+		strip := &ast.AssignStmt{Lhs: []ast.Expr{xUse}, TokPos: as.TokPos, Tok: token.ASSIGN, Rhs: []ast.Expr{sl}}
+		list = append(append(append([]ast.Stmt{}, list[:i]...), ifs, strip), list[i+2:]...)
+	}
+	return list
 }
 
 // normStmt returns the statement(s) that replace st in its list.
